@@ -75,7 +75,7 @@ Complete(o) == o.want \subseteq o.got /\ o.outs_ok
 O1(r, o) == FailureClass(r) => o.exit # 0
 O2(r, o) == o.says_fail => o.exit # 0
 O3(r, o) == (o.exit = 0 /\ Producer(r.fam, r.cmd)) => Complete(o)
-O4(r, o) == (o.exit = 0 /\ Viewer(r.fam, r.cmd)) => o.view_ok
+O4(r, o) == (o.exit = 0 /\ Viewer(r.fam, r.cmd) /\ r.lib = "ok") => o.view_ok     \* a view needs a library view to compare with
 Truthful(r, o) == O1(r, o) /\ O2(r, o) /\ O3(r, o) /\ O4(r, o)
 \* which obligation an outcome breaks (used as the rejection reason in trace validation)
 Broken(r, o) == IF ~O1(r, o) THEN "exit0-on-failure-class"
@@ -166,6 +166,7 @@ View ==
 
 \* any sub-command of any family on any input class: a truthful tool fails exactly on the failure class
 Other(f, c, inp, lib) ==
+    /\ ~vmade /\ ~HasRun                 \* stateless runs: explored once per input directory, not per session state
     /\ LET r == [Run0(f, c, inp) EXCEPT !.lib = lib]
            o == [exit |-> IF FailureClass(r) THEN 1 ELSE 0, says_fail |-> FailureClass(r), want |-> {}, got |-> {},
                  outs_ok |-> TRUE, view_ok |-> TRUE] IN
